@@ -1,6 +1,7 @@
 /- typed-value operations of the line protocol (domain `typ`) -/
 import Driver.Ops
 import Driver.State
+import SMD.Model.GenericMap
 open SMD SMD.Wire
 namespace Driver
 
@@ -29,6 +30,11 @@ def withTyped2 (s : Schema) (tr : TypeRef) (dl : Bool) (v1 : Value) (dr : Bool) 
 def opsTyped (st : State) : List (String × P String) :=
   let s := st.schema
   [
+  -- generic map interface: Set then Delete on a map value; prints the map after each step
+  ("gmap.ops", arg pFields fun m => arg pStr fun k => arg pValue fun v => arg pStr fun d =>
+      let m1 := mapSet k v m
+      let m2 := mapDelete d m1
+      done (encFields m1 ++ " " ++ encFields m2 ++ " has=" ++ encBool (mapHas d m2) ++ " len=" ++ toString m2.length)),
   ("sch.equals", arg pSchema fun a => arg pSchema fun b => done (encBool (Schema.equals a b))),
   ("typ.validate", arg pTypeRef fun tr => arg pFlag fun dup => arg pValue fun v =>
       done (encRes (fun _ => "ok") (validateV s dup tr v))),
